@@ -31,7 +31,9 @@ pub fn get_diluted_product(n_bits: Felt, spacing: Felt, z: Felt, alpha: Felt) ->
         1 <= n_bits@ <= 64, // [C17:diluted-loop-bounded-by-layout-constant]
     ensures
         r@ == diluted_spec(n_bits@, spacing@, z@, alpha@), // [C15:diluted-product-is-the-doubling-recurrence-after-n_bits-1-steps]
+        r@ == crate::swiftness_air::diluted_lemma::diluted_recurrence_value(n_bits@, spacing@, z@, alpha@), // [C15:diluted-product-equals-r_(2^n_bits)-of-the-defining-recurrence-over-all-diluted-values]
 {
+    proof { crate::swiftness_air::diluted_lemma::lemma_diluted_is_recurrence(n_bits@, spacing@, z@, alpha@); }
     let diff_multiplier = FELT_2.pow_felt(&spacing);
     let mut diff_x: Felt = diff_multiplier - FELT_2;
     let mut x: Felt = FELT_1;
